@@ -303,6 +303,10 @@ func zstrClass(s string) string {
 		return "tramp-small"
 	case has("bigger than origin FuncSize"):
 		return "func-small"
+	case has("create param match fail") && has("the number of args does not match"):
+		return "in-count"
+	case has("create param match fail") && has("the type of the args does not match"):
+		return "in-type"
 	case has("unknown method"):
 		return "unknown-method"
 	case has("goom not support Return() API when returns mocked interface"):
@@ -417,6 +421,9 @@ func zbehave(fn reflect.Value, s zsig, stub []string) (res string) {
 		return "orig"
 	}
 	// neither the body nor a callback ran: results come from a stub; compare where the configured value has the slot's type
+	if zloose {
+		return "stub"
+	}
 	for i, o := range out {
 		if stub == nil || len(stub) != len(out) {
 			return "other"
@@ -434,6 +441,9 @@ func zbehave(fn reflect.Value, s zsig, stub []string) (res string) {
 	}
 	return "stub"
 }
+
+// zloose: sequence ops classify a stubbed result without comparing values (result cursors move between calls).
+var zloose bool
 
 var zsinkSeen int
 
@@ -807,6 +817,219 @@ func zifaceOp(t []string) string {
 	return fmt.Sprintf("%s diff=%s var=%s regdelta=%d afterreset=%s", res, d, beh, n1-n0, after)
 }
 
+// ---------------------------------------------------------------- sequences of configuration calls on one mocker
+
+func zsplit(t []string) [][]string {
+	var out [][]string
+	cur := []string{}
+	for _, x := range t {
+		if x == ";" {
+			out = append(out, cur)
+			cur = []string{}
+		} else {
+			cur = append(cur, x)
+		}
+	}
+	return append(out, cur)
+}
+
+// zgroup: a `|`-separated element of Returns/In: one token is handed over bare, several as []interface{}.
+func zgroup(g string) interface{} {
+	v := zvalues(g)
+	if len(v) == 1 {
+		return v[0]
+	}
+	return v
+}
+
+type zseq struct {
+	lookup func() ExportedMocker
+	m      ExportedMocker
+	w      *When // the handle returned by the last When/Return/Returns/... call
+	via    bool  // route the next When/Return/Returns through the mocker (after a repeated lookup)
+}
+
+func (q *zseq) step(st []string) {
+	switch st[0] {
+	case "again":
+		q.m, q.via = q.lookup(), true
+		return
+	case "apply":
+		q.m.Apply(zcallback(ztoks(st[1]), ztoks(st[2]), st[3] == "1"))
+		q.w = nil
+	case "return":
+		if q.w != nil && !q.via {
+			q.w = q.w.Return(zvalues(st[1])...)
+		} else {
+			q.w = q.m.Return(zvalues(st[1])...)
+		}
+	case "when":
+		if q.w != nil && !q.via {
+			q.w = q.w.When(zvalues(st[1])...)
+		} else {
+			q.w = q.m.When(zvalues(st[1])...)
+		}
+	case "returns":
+		var gs []interface{}
+		for _, g := range strings.Split(st[1], "|") {
+			gs = append(gs, zgroup(g))
+		}
+		if q.w != nil && !q.via {
+			q.w = q.w.Returns(gs...)
+		} else {
+			q.w = q.m.Returns(gs...)
+		}
+	case "andreturn":
+		q.w = q.w.AndReturn(zvalues(st[1])...)
+	case "in":
+		var gs []interface{}
+		for _, g := range strings.Split(st[1], "|") {
+			gs = append(gs, zgroup(g))
+		}
+		q.w = q.w.In(gs...)
+	case "matches":
+		var ps []arg.Pair
+		for _, p := range strings.Split(st[1], "|") {
+			ar := strings.SplitN(p, "=", 2)
+			ps = append(ps, arg.Pair{Args: zgroup(ar[0]), Return: zgroup(ar[1])})
+		}
+		q.w = q.w.Matches(ps...)
+	default:
+		panic("probe: bad step " + st[0])
+	}
+	q.via = false
+}
+
+// zseqOp runs the steps one configuration call at a time; the observation is about the LAST executed call (the first
+// rejected one, or the final one) relative to the state right before it.
+func zseqOp(form string, t []string) string {
+	var (
+		fv     reflect.Value
+		sig    zsig
+		entry  uintptr
+		steps  [][]string
+		b      = Create()
+		a      *Builder
+		q      = &zseq{}
+		behave func() string
+		retry  func(c *Builder, cb interface{})
+		iv     ZIfc
+	)
+	snap0 := zsnap()
+	switch form {
+	case "seqf": // seqf <tgt> <ins> <outs> <var> <pre> <steps>
+		fn, ok := zzoo[t[0]]
+		if !ok {
+			return "bad-op"
+		}
+		sig, fv = zparseSig(t[1], t[2], t[3]), reflect.ValueOf(fn)
+		if !zcheckSig(fv.Type(), sig) {
+			return "zoo-mismatch"
+		}
+		entry, steps = fv.Pointer(), zsplit(t[5:])
+		q.lookup = func() ExportedMocker { return b.Func(fn) }
+		retry = func(c *Builder, cb interface{}) { c.Func(fn).Apply(cb) }
+		if t[4] == "1" {
+			a = Create()
+			a.Func(fn).Apply(zcallback(sig.ins, sig.outs, sig.variadic))
+		}
+	case "seqm": // seqm <name> <ins> <outs> <var> <steps>
+		m, ok := reflect.TypeOf(&ZRcv{}).MethodByName(t[0])
+		sig = zparseSig(t[1], t[2], t[3])
+		if !ok || !zcheckSig(m.Func.Type(), sig) {
+			return "zoo-mismatch"
+		}
+		fv, entry, steps = m.Func, m.Func.Pointer(), zsplit(t[4:])
+		rcv := &ZRcv{}
+		q.lookup = func() ExportedMocker { return b.Struct(rcv).Method(t[0]) }
+		retry = func(c *Builder, cb interface{}) { c.Struct(rcv).Method(t[0]).Apply(cb) }
+	case "seqi": // seqi <name> <mins> <mouts> <cbIns> <cbOuts> <steps>
+		im, ok := reflect.TypeOf((*ZIfc)(nil)).Elem().MethodByName(t[0])
+		msig := zparseSig(t[1], t[2], "0")
+		if !ok || !zcheckSig(im.Type, msig) {
+			return "zoo-mismatch"
+		}
+		steps = zsplit(t[5:])
+		asFn := zcallback(ztoks(t[3]), ztoks(t[4]), false)
+		q.lookup = func() ExportedMocker { return b.Interface(&iv).Method(t[0]).As(asFn) }
+		behave = func() (res string) {
+			if iv == nil {
+				return "nil"
+			}
+			defer func() {
+				if r := recover(); r != nil {
+					if strings.Contains(fmt.Sprint(r), "there is no suitable condition matched") {
+						res = "nomatch"
+					} else {
+						res = "panic:" + vh.Class(fmt.Sprint(r))
+					}
+				}
+			}()
+			zcbHits = 0
+			reflect.ValueOf(&iv).Elem().MethodByName(t[0]).Call(msig.callArgs())
+			if zcbHits > 0 {
+				return "cb"
+			}
+			return "stub"
+		}
+	}
+	if behave == nil {
+		behave = func() string { return zbehave(fv, sig, nil) }
+	}
+	var res, before string
+	var snap []byte
+	last := 0
+	for i, st := range steps {
+		if i == 0 {
+			r := zrun(func() { q.m = q.lookup() })
+			if !strings.HasPrefix(r, "ok") {
+				return "probe-panic:lookup " + r
+			}
+		}
+		before, snap, last = behave(), zsnap(), i
+		st := st
+		res = zrun(func() { q.step(st) })
+		if !strings.HasPrefix(res, "ok") {
+			break
+		}
+	}
+	d := zdiff(snap, entry, 0)
+	beh := behave()
+	if form == "seqi" {
+		v := "nil"
+		if iv != nil {
+			v = "set"
+		}
+		b.Reset()
+		return fmt.Sprintf("%s step=%d before=%s beh=%s var=%s", res, last, before, beh, v)
+	}
+	reg := patch.ZZC13Reg(entry)
+	b.Reset()
+	if a != nil {
+		a.Reset()
+	}
+	after := "ok"
+	if got := zbehave(fv, sig, nil); got != "orig" {
+		after = "fail:not-orig-after-reset:" + got
+	} else if d0 := zdiff(snap0, entry, 0); d0 != "none" {
+		after = "fail:text-after-reset:" + d0
+	} else {
+		c := Create()
+		r := zrun(func() { retry(c, zcallback(sig.ins, sig.outs, sig.variadic)) })
+		if !strings.HasPrefix(r, "ok") {
+			after = "fail:correct-mock-rejected:" + r
+		} else if got := zbehave(fv, sig, nil); got != "cb" {
+			after = "fail:correct-mock-ineffective:" + got
+		}
+		c.Reset()
+		if got := zbehave(fv, sig, nil); after == "ok" && got != "orig" {
+			after = "fail:not-orig-after-correct-mock:" + got
+		}
+	}
+	patch.ZZC13UnpatchAll()
+	return fmt.Sprintf("%s step=%d before=%s diff=%s beh=%s reg=%s after=%s", res, last, before, d, beh, reg, after)
+}
+
 // TestVerifC13 interprets the operation stream.
 func TestVerifC13(t *testing.T) {
 	zinitText()
@@ -835,6 +1058,10 @@ func TestVerifC13(t *testing.T) {
 				obs = zexportOp(op.Toks[2:])
 			case "iface":
 				obs = zifaceOp(op.Toks[2:])
+			case "seqf", "seqm", "seqi":
+				zloose = true
+				obs = zseqOp(op.Toks[1], op.Toks[2:])
+				zloose = false
 			default:
 				obs = "bad-op"
 			}
